@@ -246,6 +246,7 @@ func NewConnection(ctx context.Context, cfg ConnectionConfig) *Connection {
 }
 
 func (c *Connection) start(ctx context.Context, reader Reader, preempter Preempter) {
+	verifYield(c, "START", nil)
 	c.updateInFlight(func(s *inFlightState) {
 		select {
 		case <-c.done:
@@ -268,12 +269,14 @@ func (c *Connection) Notify(ctx context.Context, method string, params any) (err
 
 	defer func() {
 		if attempted {
+			verifYield(c, "N2", params)
 			c.updateInFlight(func(s *inFlightState) {
 				s.outgoingNotifications--
 			})
 		}
 	}()
 
+	verifYield(c, "N1", params)
 	c.updateInFlight(func(s *inFlightState) {
 		// If the connection is shutting down, allow outgoing notifications only if
 		// there is at least one call still in flight. The number of calls in flight
@@ -323,6 +326,7 @@ func (c *Connection) Call(ctx context.Context, method string, params any) *Async
 		return ac
 	}
 
+	verifYield(c, "C1", ac)
 	c.updateInFlight(func(s *inFlightState) {
 		err = s.shuttingDown(ErrClientClosing)
 		if err != nil {
@@ -351,6 +355,7 @@ func (c *Connection) Call(ctx context.Context, method string, params any) *Async
 // Retire is safe to call multiple times: if the call is already no longer
 // tracked, Retire is a no op.
 func (c *Connection) Retire(ac *AsyncCall, err error) {
+	verifYield(c, "R", ac)
 	c.updateInFlight(func(s *inFlightState) {
 		if s.outgoingCalls[ac.id] == ac {
 			delete(s.outgoingCalls, ac.id)
@@ -454,6 +459,7 @@ func (ac *AsyncCall) Await(ctx context.Context, result any) error {
 // cancelled.
 func (c *Connection) Cancel(id ID) {
 	var req *incomingRequest
+	verifYield(c, "K1", id)
 	c.updateInFlight(func(s *inFlightState) {
 		req = s.incomingByID[id]
 	})
@@ -478,6 +484,7 @@ func (c *Connection) Wait() error {
 func (c *Connection) wait(fromWait bool) error {
 	var err error
 	<-c.done
+	verifYield(c, "WT", fromWait)
 	c.updateInFlight(func(s *inFlightState) {
 		if fromWait {
 			if !errors.Is(s.readErr, io.EOF) {
@@ -504,6 +511,7 @@ func (c *Connection) wait(fromWait bool) error {
 func (c *Connection) Close() error {
 	// Stop handling new requests, and interrupt the reader (by closing the
 	// connection) as soon as the active requests finish.
+	verifYield(c, "CL1", nil)
 	c.updateInFlight(func(s *inFlightState) { s.connClosing = true })
 	return c.wait(false)
 }
@@ -524,6 +532,7 @@ func (c *Connection) readIncoming(ctx context.Context, reader Reader, preempter 
 			c.acceptRequest(ctx, msg, preempter)
 
 		case *Response:
+			verifYield(c, "RR", msg)
 			c.updateInFlight(func(s *inFlightState) {
 				if ac, ok := s.outgoingCalls[msg.ID]; ok {
 					delete(s.outgoingCalls, msg.ID)
@@ -538,6 +547,7 @@ func (c *Connection) readIncoming(ctx context.Context, reader Reader, preempter 
 		}
 	}
 
+	verifYield(c, "RX", err)
 	c.updateInFlight(func(s *inFlightState) {
 		s.reading = false
 		s.readErr = err
@@ -576,6 +586,7 @@ func (c *Connection) acceptRequest(ctx context.Context, msg *Request, preempter 
 	// If the request is a call, add it to the incoming map so it can be
 	// cancelled (or responded) by ID.
 	var err error
+	verifYield(c, "A1", req.Request)
 	c.updateInFlight(func(s *inFlightState) {
 		s.incoming++
 
@@ -612,6 +623,7 @@ func (c *Connection) acceptRequest(ctx context.Context, msg *Request, preempter 
 		}
 	}
 
+	verifYield(c, "A2", req.Request)
 	c.updateInFlight(func(s *inFlightState) {
 		// If the connection is shutting down, don't enqueue anything to the
 		// handler — not even notifications. That ensures that if the handler
@@ -656,6 +668,7 @@ func (c *Connection) acceptRequest(ctx context.Context, msg *Request, preempter 
 func (c *Connection) handleAsync() {
 	for {
 		var req *incomingRequest
+		verifYield(c, "D1", nil)
 		c.updateInFlight(func(s *inFlightState) {
 			if len(s.handlerQueue) > 0 {
 				req, s.handlerQueue = s.handlerQueue[0], s.handlerQueue[1:]
@@ -711,6 +724,7 @@ func (c *Connection) processResult(from any, req *incomingRequest, result any, e
 		// The caller could theoretically reuse the request's ID as soon as we've
 		// sent the response, so ensure that it is removed from the incoming map
 		// before sending.
+		verifYield(c, "P1", req.Request)
 		c.updateInFlight(func(s *inFlightState) {
 			delete(s.incomingByID, req.ID)
 		})
@@ -736,6 +750,7 @@ func (c *Connection) processResult(from any, req *incomingRequest, result any, e
 
 	// Cancel the request to free any associated resources.
 	req.cancel(nil)
+	verifYield(c, "P2", req.Request)
 	c.updateInFlight(func(s *inFlightState) {
 		if s.incoming == 0 {
 			panic("jsonrpc2: processResult called when incoming count is already zero")
@@ -753,6 +768,7 @@ func (c *Connection) write(ctx context.Context, msg Message) error {
 	//
 	// Allow outgoing "notifications" forwarded by the Notify method.
 	// This will allow to send the cancelled notification when the client is shutting down.
+	verifYield(c, "W1", msg)
 	c.updateInFlight(func(s *inFlightState) {
 		if req, ok := msg.(*Request); ok && !req.IsCall() && s.outgoingNotifications > 0 {
 			return
@@ -774,6 +790,7 @@ func (c *Connection) write(ctx context.Context, msg Message) error {
 		// able to receive cancellation notifications. Since we can't reliably write
 		// the results of incoming calls and can't receive explicit cancellations,
 		// cancel the calls now.
+		verifYield(c, "W2", msg)
 		c.updateInFlight(func(s *inFlightState) {
 			if s.writeErr == nil {
 				s.writeErr = err
